@@ -541,7 +541,14 @@ P_C07T(pre, e) ==
              e.pkgs[i].delay = ExpectedDelay(e.pkgs[i].kind, e.pkgs[i].betdelay, e.lat)
              /\ (Has(pre.mkt, e.pkgs[i].mid) => e.pkgs[i].betdelay = pre.mkt[e.pkgs[i].mid].betdelay),
              <<e.pkgs[i].kind, e.pkgs[i].delay, e.pkgs[i].betdelay>>))
+    \* "after the request was made": a package handed over in this step is dated with the clock of this step (the age
+    \* the due-time test measures starts when the request was made, whichever market it is for)
+    /\ (e.ev = "cb" => \A i \in DOMAIN e.pkgs : \A j \in DOMAIN post.hq :
+          (post.hq[j].orders = e.pkgs[i].orders /\ post.hq[j].kind = e.pkgs[i].kind /\ ~post.hq[j].done) =>
+             Ck("C07", "RequestDatedNow", post.hq[j].created = post.clock, <<e.pkgs[i].kind, e.pkgs[i].orders, post.hq[j].created, post.clock>>))
     /\ (e.ev = "upd" => Ck("C07", "ClockIsPublishTime", post.clock = e.a.pt, <<post.clock, e.a.pt>>))
+    \* all time seen by strategies is the publish time of the update being processed (of the book they are shown)
+    /\ (e.ev = "cb" => Ck("C07", "ClockInCallback", post.clock = e.a.pt, <<e.a.mid, e.a.phase, post.clock, e.a.pt>>))
 
 
 -----------------------------------------------------------------------------
